@@ -235,6 +235,21 @@ func (d *Driver) judgeC01() {
 			how := "delete-foreign"
 			if prev.Writer == op.Inst && prev.Gen == op.Gen {
 				how = "delete-own-outside-shutdown"
+			} else {
+				// the stop call that issued it: did it find a leader? (an instance that knew it had been
+				// deposed when it was stopped has no business deleting anything)
+				calls, foundLeader := 0, false
+				for _, a := range d.h.Apis {
+					if a.Inst == op.Inst && a.Gen == op.Gen && a.Kind == AStopCtx && a.SInv <= op.SInvoke && (a.TRet < 0 || a.SRet >= op.SInvoke) {
+						calls++
+						if a.WasLeaderAtInv {
+							foundLeader = true
+						}
+					}
+				}
+				if calls > 0 && !foundLeader {
+					how = "delete-foreign-by-non-leader"
+				}
 			}
 			d.h.violate("C01", how+"/"+callerSig(op.Caller),
 				fmt.Sprintf("i%d.%d deleted record seq=%d %s written by i%d.%d", op.Inst, op.Gen, prev.Seq, prev.Val, prev.Writer, prev.Gen), op.TApply, op.SApply)
